@@ -12,6 +12,7 @@ from mc import payload as P
 from mc.termcheck import short
 
 PROPERTY = "C13"
+PAYLOAD_SEEDS = {"thorough": [0, 1, 2, 3]}  # the thorough tier repeats the whole enumeration for four payload seeds
 ASSUMPTIONS = [
     "well-conditioned operators (cond <= 1e3), n <= 150; the Krylov optimum is computed independently (exact rationals for real "
     "integer systems with n <= 6, fully re-orthogonalised float64 least squares otherwise)",
